@@ -38,6 +38,9 @@ use poulpy_hal::source::Source;
 use poulpy_verif_harness::rec::*;
 use poulpy_verif_harness::with_be;
 use std::io::Cursor;
+
+#[path = "../c17_layers.rs"]
+mod layers;
 use std::panic::{catch_unwind, AssertUnwindSafe};
 
 const GUARD: usize = 4096;
@@ -123,6 +126,8 @@ pub fn op_info(opc: i64) -> Option<([u8; 3], bool, bool, bool)> {
         91 => ([z, z, x], false, true, true),   // glwe_decrypt     (res: plaintext, a: GLWE)
         92 => ([z, z, x], false, true, true),   // glwe_keyswitch   (res, a: GLWE; key size b.size, dsize e3)
         93 => ([z, z, x], false, true, true),   // glwe_external_product (res, a: GLWE; ggsw size b.size, dsize e3)
+        // scheme layers (harness/src/c17_layers.rs): owned operands, scratch window inside the canary arena
+        100..=102 | 110..=112 => ([z, x, x], false, true, true),
         _ => return None,
     })
 }
@@ -283,6 +288,18 @@ fn plan(q: &Par) -> Plan {
                         let buf: Vec<u8> = poulpy_hal::alloc_aligned::<u8>(h.len.max(64));
                         if kind == K_Z { let v = VecZnx::from_data(&buf[..h.len], q.n, cols, size); h.len = v.data.len(); }
                         else { let v = ScalarZnx::from_data(&buf[..h.len], q.n, cols); h.len = v.data.len(); }
+                    } else if kind == K_B || kind == K_D || kind == K_P {
+                        // the real from_data of the big / prepared layouts on the short buffer: rejected by the asserts of
+                        // repair 122d562 (the panic propagates as the outcome of this record)
+                        let buf: Vec<u8> = poulpy_hal::alloc_aligned::<u8>(h.len.max(64));
+                        let n = q.n;
+                        h.len = with_be!(q.be, BE, {
+                            match kind {
+                                K_B => VecZnxBig::<&[u8], BE>::from_data(&buf[..h.len], n, cols, size).data.len(),
+                                K_D => VecZnxDft::<&[u8], BE>::from_data(&buf[..h.len], n, cols, size).data.len(),
+                                _ => SvpPPol::<&[u8], BE>::from_data(&buf[..h.len], n, cols).data.len(),
+                            }
+                        });
                     }
                 }
                 11 => { h.n = if q.hp1 == 0 { (q.n / 2).max(1) } else { q.n * 2 }; h.len = h.n * words * w; }
@@ -701,7 +718,30 @@ fn run_core(q: &Par, fill: u64, slack: usize) -> Obs {
     })
 }
 
+/// scheme-layer record: smallest working scratch window (multiple of 64) by bisection, then two garbage fills
+fn observe_layer(q: &Par) -> (Vec<i128>, Vec<i128>, usize) {
+    let shift = 8 * q.hp1 as usize;
+    let dsz = q.size[0];
+    let fa = 0xA5A5_0001 ^ q.seed; let fb = 0x5A5A_0002 ^ q.seed.rotate_left(17);
+    let w = layers::min_window(1 << 26, |w| layers::run(q.be, q.opc, dsz, w, shift, fa).0.is_ok());
+    let (n, cols, size) = layers::nominal(q.opc, dsz);
+    let nominal_hdr = vec![n as i128, cols as i128, size as i128, size as i128, r64(n * cols * size * 8) as i128, 8];
+    let w = match w { Some(w) => w, None => return (vec![1, 1, 0, 1], nominal_hdr, 0) };
+    hook_reset();
+    let (ra, oka, hdr) = layers::run(q.be, q.opc, dsz, w, shift, fa);
+    let (rb, okb, _) = layers::run(q.be, q.opc, dsz, w, shift, fb);
+    let viol = hook_violations();
+    let status = match (&ra, &rb) {
+        (Ok(a), Ok(b)) => if q.opc < 110 && (a.first() != Some(&1) || b.first() != Some(&1)) { 4 } else { 0 },
+        (Err(_), Err(_)) => 1,
+        _ => 9,
+    };
+    let deq = match (&ra, &rb) { (Ok(a), Ok(b)) => a == b, _ => true };
+    (vec![status, (oka && okb) as i128, viol, deq as i128], hdr, w)
+}
+
 fn observe(q: &Par, force: bool) -> (Vec<i128>, Vec<i128>, usize) {
+    if q.opc >= 100 { return observe_layer(q); }
     let pl = plan(q);
     let hd = pl.opd[q.subj].h;
     let hv = vec![hd.n as i128, hd.cols as i128, hd.size as i128, hd.max as i128, hd.len as i128, hd.w as i128];
@@ -755,7 +795,7 @@ pub fn generate(tier: &str, seed: u64) -> Vec<Rec> { gen_stream(tier, seed, 0) }
 
 /// zone 0 = main stream (admissible calls and cleanly rejected ones); zones 1..5 = the hazard stream:
 ///   1 (retired: FFT64Avx DFT-domain operations at n in {2,4}, repaired)      2 FFT64 vmp family at n in {2,4}      3 NTT120 vmp family at n = 1
-///   4 an operand of another ring degree (histories 10, 11)      5 ill-formed subjects (from_data of VecZnxBig / VecZnxDft / SvpPPol on a short buffer) actually USED
+///   4 an operand of another ring degree (histories 10, 11)      5 (retired: ill-formed subjects from an unchecked from_data; repaired by 2067fe8 / 122d562)
 pub fn gen_stream(tier: &str, seed: u64, zone: u8) -> Vec<Rec> {
     let mut g = Rng::new(seed ^ 0xC17 ^ ((zone as u64) << 32));
     let mut out = Vec::new();
@@ -808,7 +848,7 @@ pub fn gen_stream(tier: &str, seed: u64, zone: u8) -> Vec<Rec> {
                 match zone {
                     1..=3 => hs = vec![0],
                     4 => { if kind == K_Z { hs = vec![10, 11]; } else { hs = vec![11]; } }
-                    5 => { if kind == K_B || kind == K_D || kind == K_P { hs = vec![9]; } else { continue; } }
+                    5 => { continue; }   // (retired: every from_data validates its buffer since 122d562)
                     _ => {}
                 }
                 if opc == 58 { hs.retain(|h| *h != 1); }   // consume: the big view reuses the active prefix only
@@ -842,6 +882,21 @@ pub fn gen_stream(tier: &str, seed: u64, zone: u8) -> Vec<Rec> {
             }
         }
     }
+    if zone == 0 {
+        // scheme layers: CKKS add / mul / rescale on four backends, FheUint prepare / add circuit / blind rotation on FFT64
+        let shifts: &[i64] = if tier == "thorough" { &[0, 1, 3, 7] } else { &[0, 3] };
+        for be in 1..=4i128 {
+            for opc in [100i64, 101, 102, 110, 111, 112] {
+                if opc >= 110 && be > 2 { continue; }
+                for &hp1 in shifts {
+                    if opc == 110 && hp1 != 0 && tier != "thorough" { continue; }   // circuit bootstrapping is the expensive one
+                    let dsz = if opc == 102 { 7 } else { 8 };
+                    let (n, cols, size) = layers::nominal(opc, dsz);
+                    out.push(mk(be, opc, n, 0, 0, hp1, 0, [[cols, size, 0], [0, 0, 0], [0, 0, 0]], [0; 4], g.next() >> 8));
+                }
+            }
+        }
+    }
     out
 }
 
@@ -868,7 +923,7 @@ fn main() {
         use std::io::Write;
         let mut f = std::io::BufWriter::new(std::fs::File::create(&args[4]).unwrap());
         let seed: u64 = args[3].parse().unwrap();
-        let zones: Vec<u8> = if args.get(5).map(|s| s.as_str()) == Some("hazard") { vec![1, 2, 3, 4, 5] } else { vec![0] };
+        let zones: Vec<u8> = if args.get(5).map(|s| s.as_str()) == Some("hazard") { vec![2, 3, 4] } else { vec![0] };
         for z in zones { for r in gen_stream(&args[2], seed, z) { writeln!(f, "{}", r.line(&Ok(vec![]))).unwrap(); } }
         return;
     }
